@@ -17,7 +17,7 @@ CLAIMED = {
  "C13": ("proof", "value whitelist: Lean theorem that an accepted expression tree contains no non-conversion call, receive or function literal, over the whitelist regenerated from processValue + per-expression e2e over 54 fixed forms and random nested expressions with the unsafe part at any position (verdict vs model and vs oracle, value = home evaluation, same value on every call, no function ran)", "5/C13"),
  "C15": ("proof", "copied declarations: regenerated copyAST field tables closed by decide + Lean model of the renaming pass (WireV.renameOccs: totality, consistency per object, freshness, injectivity) tied to the real rewritePkgRefs by a correspondence stream over random type-checked packages with a binding oracle (copies re-type-checked, identifier-by-identifier entity comparison) + declaration corpus and 25x8 collision matrix copied, compiled, vetted and executed against the originals", "5/C15"),
  "C16": ("proof", "determinism/layout: Lean theorems on vendor stripping (canonical form for every prefix, idempotence) and permutation-invariance of the sorted import block + unit-tier path streams + byte-equality across repeats, locations, invocation forms and module/GOPATH/vendor layouts", "5/C16"),
- "C01": ("proof", "compilable output: IR-level well-formedness theorems (definition before use, argument types = binding-resolved parameter types, one call per constructed type, binder distinctness, declared signature, zero-value and copy totality) + every accepted generated package compiled with go build and each injector assigned to a variable of its declared function type", "5/C01"),
+ "C01": ("proof", "compilable output: IR-level well-formedness theorems (definition before use, argument types = binding-resolved parameter types, one call per constructed type, every local used, binder distinctness, declared signature, zero-value and copy totality, the internal-package import rule) + every accepted generated package compiled with go build and each injector assigned to a variable of its declared function type + unusual spellings accepted by wire compiled + internal-package layouts + importableFrom/unvendor correspondence stream", "5/C01"),
  "C19": ("proof", "check/show: Lean theorems over the gather machine (termination, partition, inputs = leaf requirements, merged groups, order freedom) + regenerated call facts (Load and inject run the same stages) + real gather through an overlay of cmd/wire + declarative grouping oracle (inputs = unprovided types reachable through the unique sources) + check-vs-gen exit/error classes and parsed `wire show` output on generated programs", "5/C19"),
  "C11": ("proof", "binding aliasing in map and planner: Lean theorems + unit-tier correspondence + e2e run-time identity traces", "5/C11"),
  "C03": ("proof", "error-branch structure and unwinding: Lean theorems over the emission/execution model for every call list and fault plan + IR of every generated injector + run-time traces under every single-failure plan", "5/C03"),
